@@ -55,7 +55,8 @@ fn $name(s: &Start) {
     kani::assert(ignore_q || a.q == b.q, concat!($tag, ".state Q"));
     kani::assert(o.ok_data, concat!($tag, ".trace memory/port transfers (order, address, data)"));
     kani::assert(o.t_real == o.t_spec, "C03.time total T-states");
-    kani::assert(o.ok_full, "C03.trace bus cycles (kind, address, clocks)");
+    // (which address each cycle and each single internal T-state carries is also what C04's delays hang on)
+    kani::assert(o.ok_full, "C03/C04.trace bus cycles (kind, address, clocks)");
     kani::cover!(true);
 }
     };
